@@ -4,7 +4,7 @@ store it under /verif/seeded/<id>/.  usage: confirm_seeded.py <PROP> <mK> [...]
 Confirms: patch applies; full test-suite passes with it (481); demo fails with
 it; demo passes without it."""
 import json, os, shutil, subprocess, sys, re
-OUT = '/tmp/mut/out'
+OUT = os.environ.get('SEED_OUT', '/tmp/mut/out')
 VERIF = '/verif'
 
 def sh(cmd, cwd=None, env=None, timeout=900):
